@@ -176,6 +176,8 @@ def gen_mirror(runner, tier, seed):
             for pl in app_requests(r):
                 p = r.choice([p4, p6])
                 frames.append(p.udp(sport, dport, pl))
+            other6 = rand_ip6(r)          # neighbour solicitation sent to a unicast address that is not the target
+            frames.append(eth(SMAC, cm, 0x86DD, ipv6(c6, other6, 58, nd_ns(c6, other6, s6, b"\x01\x01" + cm), hlim=255)))
             frames.append(p4.tcp(sport, dport, r.randrange(1 << 32), r.randrange(1 << 32), F_FIN | F_ACK))
             frames.append(p6.tcp(sport, dport, r.randrange(1 << 32), r.randrange(1 << 32), F_FIN | F_ACK))
             if k % 3 == 0:
@@ -349,6 +351,8 @@ def gen_arp_nd_echo(runner, tier, seed):
                     sn = solicited_node(tgt)
                     fr.append(eth(mcast_mac6(tgt) if r.random() < 0.5 else mac(SMAC), cm, 0x86DD,
                                   ipv6(C6, sn, 58, nd_ns(C6, sn, tgt, opts, code), hlim=255)))
+                    other = r.choice([S6, O6, "fe80::2", "ff02::1"])          # destination differs from the solicited target
+                    fr.append(eth(SMAC, cm, 0x86DD, ipv6(C6, other, 58, nd_ns(C6, other, tgt, opts, code), hlim=255)))
                     fr.append(eth(SMAC, cm, 0x86DD, ipv6(C6, tgt, 58, nd_ns(C6, tgt, tgt, opts, code), hlim=255)))
         # truncated solicitations: every length from the ICMPv6 header up to a full NS
         full = nd_ns(C6, S6, S6, b"\x01\x01" + cm)
@@ -392,15 +396,23 @@ def gen_syn(runner, tier, seed):
     base = []
     for k in range(n):
         v6 = r.random() < 0.5
-        base.append((v6, rand_ip6(r) if v6 else rand_ip4(r), rand_ip6(r) if v6 else rand_ip4(r), r.randrange(65536), r.randrange(65536)))
+        a, b = (rand_ip6(r), rand_ip6(r)) if v6 else (rand_ip4(r), rand_ip4(r))
+        sp, dp = r.randrange(65536), r.randrange(65536)
+        alt_a = rand_ip6(r) if v6 else rand_ip4(r)
+        alt_b = rand_ip6(r) if v6 else rand_ip4(r)
+        # the same tuples under every key: a pair of flows that differ in exactly one input and
+        # still share a cookie under three unrelated keys shows that the input is ignored
+        base.append([(a, b, sp, dp), (a, b, sp, dp), (alt_a, b, sp, dp), (a, alt_b, sp, dp),
+                     (a, b, sp ^ (1 << r.randrange(16)), dp), (a, b, sp, dp ^ (1 << r.randrange(16))), (b, a, dp, sp)])
+    s = None
     for key in KEYS[:3]:
-        s = runner.session(Config(SMAC, None, None, key, "none", 0), "cookie key=%x" % key[0])
+        cfgk = Config(SMAC, None, None, key, "none", 0)
+        if s is None:
+            s = runner.session(cfgk, "cookie determinism and sensitivity under three keys")
+        else:
+            s.reconfigure(cfgk)
         fr = []
-        for (v6, a, b, sp, dp) in base:
-            alt_a = rand_ip6(r) if v6 else rand_ip4(r)
-            alt_b = rand_ip6(r) if v6 else rand_ip4(r)
-            variants = [(a, b, sp, dp), (a, b, sp, dp), (alt_a, b, sp, dp), (a, alt_b, sp, dp),
-                        (a, b, sp ^ (1 << r.randrange(16)), dp), (a, b, sp, dp ^ (1 << r.randrange(16))), (b, a, dp, sp)]
+        for variants in base:
             for (x, y, p, q) in variants:
                 fr.append(Peer(CMAC, SMAC, x, y).tcp(p, q, r.randrange(1 << 32), 0, F_SYN))
         s.send(fr)
@@ -582,7 +594,19 @@ def gen_interference(runner, tier, seed):
         s = runner.session(cfg_plain(key=KEYS[rd % 3]), "interference round %d" % rd)
         nf = r.choice([2, 3, 5, 8, 16])
         peers = [peer4(), peer6()]
-        flows = [Flow(r.choice(peers), 2000 + i, r.choice([80, 111, 8080]), r.randrange(1 << 32)) for i in range(nf)]
+        if rd % 2 == 0:
+            flows = [Flow(r.choice(peers), 2000 + i, r.choice([80, 111, 8080]), r.randrange(1 << 32)) for i in range(nf)]
+        else:
+            # flows that differ in exactly one input (client address, server address, source port,
+            # destination port), both versions: the closest neighbours in the flow space
+            c4b, s4b, c6b, s6b = rand_ip4(r), rand_ip4(r), rand_ip6(r), rand_ip6(r)
+            sp, dp = r.randrange(1024, 65535), r.choice([80, 111])
+            flows = []
+            for (ca, sa) in ((C4, S4), (c4b, S4), (C4, s4b), (C6, S6), (c6b, S6), (C6, s6b)):
+                flows.append(Flow(Peer(CMAC, SMAC, ca, sa), sp, dp, r.randrange(1 << 32)))
+            flows.append(Flow(Peer(CMAC, SMAC, C4, S4), sp + 1, dp, r.randrange(1 << 32)))
+            flows.append(Flow(Peer(CMAC, SMAC, C6, S6), sp, dp + 1, r.randrange(1 << 32)))
+            flows.append(Flow(Peer(CMAC, SMAC, C4, S4), dp, sp, r.randrange(1 << 32)))
         live = open_flows(s, flows)
         plans = []
         for f in live:
@@ -651,7 +675,7 @@ def known_witnesses(runner, prop, r=None):
         if ent["property"] != prop:
             continue
         key = ent["key"]
-        if key.endswith(":equal-cookies"):
+        if ":equal-cookies" in key:
             collision_witness(runner, prop)
         elif key.startswith("shadow:RPC-UDP:0:"):
             b = int(key.split(":")[-1])
@@ -844,6 +868,12 @@ def gen_dns(runner, tier, seed):
     for qn in range(0, 5):
         for _ in range(4 if tier == "quick" else 60):
             pl.append(dns_query(r.choice(ids), r.choice([0, 0x0100]), [name(r) for _ in range(qn)]))
+    # the same name asked several times, names that are prefixes / suffixes of each other
+    for _ in range(4 if tier == "quick" else 40):
+        nm = name(r)
+        pl.append(dns_query(r.choice(ids), 0x0100, [nm, nm]))
+        pl.append(dns_query(r.choice(ids), 0x0100, [nm, name(r), nm]))
+        pl.append(dns_query(r.choice(ids), 0x0100, [nm, nm[1:] or (b"x",), nm + (b"tail",)]))
     # longest names
     pl.append(dns_query(7, 0x0100, [(b"a" * 63, b"b" * 63, b"c" * 63, b"d" * 61)]))
     pl.append(dns_query(7, 0x0100, [(b"a" * 63, b"b" * 63, b"c" * 63, b"d" * 62)]))        # 256: too long
@@ -968,13 +998,13 @@ def gen_smb(runner, tier, seed):
         if r.random() < 0.2:
             ds.append(r.choice(ds))                         # duplicates
         hdr = dict(pid_high=r.randrange(65536), tid=r.randrange(65536), pid_low=r.randrange(65536), uid=r.randrange(65536), mid=r.randrange(65536),
-                   flags=r.choice([0x18, 0x08, 0x00, 0x18 | 0x80 if r.random() < 0.2 else 0x18]))
+                   flags=r.choice([0x18, 0x08, 0x00, 0x18, r.choice([0x80, 0x88, 0x90, 0x98, 0x81, 0xff, 0xc0])]))
         pl.append(smb1_negotiate(ds, **hdr))
         pl.append(smb1_session_setup(blob=rb(r, r.choice([1, 2, 40, 74, 255, 300])), **hdr))
         d2 = r.sample([0x0202, 0x0210, 0x0300, 0x0302, 0x0311, 0x02ff, 0x0310, 0x0000, 0x1234, 0xffff, 0x0201], r.randrange(1, 8))
         if r.random() < 0.15:
             d2.append(d2[0])
-        h2 = dict(message_id=r.randrange(1 << 62), async_id=r.randrange(1 << 62), session_id=r.randrange(1 << 62), flags=r.choice([0, 0, 0, 1, 8]))
+        h2 = dict(message_id=r.randrange(1 << 62), async_id=r.randrange(1 << 62), session_id=r.randrange(1 << 62), flags=r.choice([0, 0, 0, 8, 0x10, r.choice([1, 3, 9, 0x11, 0x30000001, 0xffffffff])]))
         pl.append(smb2_negotiate(d2, **h2))
         pl.append(smb2_session_setup(blob=rb(r, r.choice([1, 2, 40, 74, 255, 300])), **h2))
     pl += [smb2_negotiate([0x1234, 0x0000]), smb2_negotiate([0xffff]), smb2_negotiate([0x0202], count=0), smb2_negotiate([0x0202, 0x0210], count=1),
@@ -1075,10 +1105,10 @@ def gen_replies(runner, tier, seed):
             for t in (0x0011, 0x0101, 0x0111):
                 app.append(stun(t, rb(r, 16)))
                 app.append(stun(t, STUN_MAGIC + rb(r, 12), stun_attr(1, b"\0\1" + struct.pack(">H", r.randrange(65536)) + rb(r, 4))))
-            app.append(smb1_negotiate([b"NT LM 0.12"], flags=0x98, mid=r.randrange(65536)))
-            app.append(smb1_session_setup(flags=0x80))
-            app.append(smb2_negotiate([0x0202], flags=1, message_id=r.randrange(1 << 40)))
-            app.append(smb2_session_setup(flags=r.choice([1, 9])))
+            app.append(smb1_negotiate([b"NT LM 0.12"], flags=r.choice([0x98, 0x80, 0x88, 0x90, 0x81, 0xff]), mid=r.randrange(65536)))
+            app.append(smb1_session_setup(flags=r.choice([0x80, 0x98, 0x88, 0xc0])))
+            app.append(smb2_negotiate([0x0202], flags=r.choice([1, 3, 9, 0x11, 0x30000001, 0xffffffff]), message_id=r.randrange(1 << 40)))
+            app.append(smb2_session_setup(flags=r.choice([1, 3, 9, 0xffffffff])))
             app.append(rpc_call(r.randrange(1 << 32), mtype=1))
             app.append(struct.pack(">II", r.randrange(1 << 32), 1) + b"\0" * 16)          # accepted reply, success
         for q in app:
@@ -1389,8 +1419,20 @@ def gen_crash(runner, tier, seed):
     r = rng_for(seed, "C01")
     seeds, apps = c01_seeds(r)
     muts = []
+    core = []          # run under every configuration: truncation at each layer boundary (+-1), empty layers
     for f in seeds:
         muts += mutations(f, r, tier)
+        offs = frame_offsets(f)
+        cuts = set([0, 13, 14, 15])
+        for key in ("ip", "l4", "app"):
+            if key in offs:
+                cuts.update([offs[key] - 1, offs[key], offs[key] + 1, offs[key] + 2, offs[key] + 4])
+        if "arp" in offs:
+            cuts.update([41, 42, 43])
+        for c in sorted(cuts):
+            if 0 <= c < len(f):
+                core.append(f[:c])
+    core = list(dict.fromkeys(core))
     if tier == "quick":
         r.shuffle(muts)
         keep = 30000
@@ -1400,6 +1442,7 @@ def gen_crash(runner, tier, seed):
         s = runner.session(cfg, "crash matrix cfg %d: self=%s deny=%s logger=%s level=%d" % (ci, bool(cfg.self_ips), bool(cfg.deny), cfg.logger, cfg.level))
         part = muts if tier != "quick" else muts[ci::len(cfgs)] + muts[(ci + 1) % len(cfgs)::len(cfgs)][:1000]
         s.send(seeds)
+        s.send(core)
         for ch in chunks(part, 5000):
             s.send(ch)
         # histories: mutated continuation segments on validated flows that hold partial parser state
